@@ -3,7 +3,7 @@
 MODULES = ["TLX.Props.ExportProps"]
 _NS = "TLX.Props.ExportProps."
 THEOREMS_C08 = [_NS + n for n in ["cut_sessions_prefix", "export_cut_prefix_tls_items", "export_cut_prefix_tls",
-                                  "Ex.cut_before_late_dsb_not_prefix"]]
+                                  "export_cut_prefix_tls_ingest", "Ex.cut_before_late_dsb_not_prefix"]]
 THEOREMS_C13 = [_NS + n for n in ["export_meta_only_adds_items"]]
 THEOREMS_C10 = [_NS + n for n in ["export_ports_tls_items"]]
 THEOREMS_C07 = [_NS + n for n in ["export_time_and_ends_tls_items"]]
